@@ -79,7 +79,7 @@ def main():
                 for line in log.split("\n"):
                     if "error" in line and ".lean:" in line:
                         broken.append(line.strip()[:300])
-            hits = common.forbidden_scan()
+            hits = common.forbidden_scan(lean_modules + drivers)
             if hits:
                 broken.append("forbidden tokens in lean sources: " + "; ".join(hits[:5]))
             if ok:
